@@ -201,6 +201,24 @@ func applyTblOp(t *document.Table, o tblOp) (res int) {
 	return 0
 }
 
+// cellsPlainV: no merges, rows of equal length, every cell with a paragraph - whatever the grid says
+func cellsPlainV(v tableV) bool {
+	if len(v.Rows) == 0 {
+		return false
+	}
+	for _, r := range v.Rows {
+		if len(r) != len(v.Rows[0]) {
+			return false
+		}
+		for _, c := range r {
+			if c.Span != 0 || c.VM != "" || len(c.Paras) == 0 {
+				return false
+			}
+		}
+	}
+	return true
+}
+
 func isPlainV(v tableV) bool {
 	if v.NoGrid || len(v.Grid) == 0 || len(v.Rows) == 0 {
 		return false
@@ -370,6 +388,8 @@ var structuralKinds = map[string]string{"InsertRow": "q_merged_table_insert_row"
 type tblCase struct {
 	Rows, Cols int
 	Family     string
+	Grid0      string // "": the grid AddTable gives; "none", "short", "long": as an opened document may hold the table
+	GridN      int
 	Ops        []tblOp
 }
 
@@ -436,6 +456,41 @@ func runTblCase(r *rng, family string, nr, nc int) (c tblCase, coq string, fails
 	}
 	c = tblCase{Rows: nr, Cols: nc, Family: family}
 	v0 := viewTable(t)
+	grid0 := "None"
+	if r.chance(15) {
+		// the table as an opened document may hold it: without a grid definition, or with one that is shorter or longer
+		// than the rows (the column edits complete the grid first)
+		switch r.intn(3) {
+		case 0:
+			c.Grid0 = "none"
+			t.Grid = nil
+			grid0 = "(Some None)"
+		case 1:
+			c.Grid0, c.GridN = "short", r.intn(nc)
+			t.Grid.Cols = t.Grid.Cols[:c.GridN]
+		default:
+			c.Grid0, c.GridN = "long", nc+r.rangeI(1, 2)
+			for len(t.Grid.Cols) < c.GridN {
+				t.Grid.Cols = append(t.Grid.Cols, document.TableGridCol{W: "777"})
+			}
+		}
+		// the widths of the columns that are added come from the cells' own widths, which the model does not carry:
+		// the cells of these tables have none (the added columns then have width 0, as in the model)
+		for ri := range t.Rows {
+			for ci := range t.Rows[ri].Cells {
+				if pr := t.Rows[ri].Cells[ci].Properties; pr != nil {
+					pr.TableCellW = nil
+				}
+			}
+		}
+		if c.Grid0 != "none" {
+			var gs []string
+			for _, gc := range t.Grid.Cols {
+				gs = append(gs, gc.W)
+			}
+			grid0 = "(Some (Some [" + strings.Join(gs, ";") + "]%N))"
+		}
+	}
 	atom := 1
 	var steps []string
 	nOps := r.rangeI(3, 22)
@@ -535,7 +590,7 @@ func runTblCase(r *rng, family string, nr, nc int) (c tblCase, coq string, fails
 		}
 		// ---- oracle
 		class := ""
-		if !plainBefore {
+		if !plainBefore && !cellsPlainV(before) {
 			class = structuralKinds[o.Kind]
 		}
 		add := func(clause, detail string) {
@@ -596,7 +651,7 @@ func runTblCase(r *rng, family string, nr, nc int) (c tblCase, coq string, fails
 	for _, w := range v0.Grid {
 		ws = append(ws, fmt.Sprint(w))
 	}
-	coq = fmt.Sprintf("(mkCase %d %d [%s]%%N %s)", nr, nc, strings.Join(ws, ";"), cList(steps))
+	coq = fmt.Sprintf("(mkCase %d %d [%s]%%N %s %s)", nr, nc, strings.Join(ws, ";"), grid0, cList(steps))
 	return
 }
 
